@@ -1,12 +1,22 @@
 import RisorModel.C16.Model
 import RisorModel.Generated.C16
 /-!
-C16 ties: the definition regenerated from `object/list.go` by the extractor on this run
-equals the hand copy the executable model (and therefore the oracle) uses.
+C16 ties: the definitions regenerated from `object/list.go` by the extractor on this run
+equal the hand copies the executable model (and therefore the oracle) uses.
 -/
 namespace Risor.C16
 
 theorem resolveIndex_tie (idx size : Int) :
     Risor.Generated.C16.resolveIndex idx size = resolveIndex idx size := rfl
+
+-- `ResolveIntSlice` as translated from the source on this run = the copy in Model.lean that
+-- `resolveIntSlice_eq_go` (SliceProps) relates to the machine's `resolveIntSlice` for all inputs
+theorem resolveIntSlice_tie (sStart sStop : Option Val) (size : Int) :
+    Risor.Generated.C16.resolveIntSliceGo sStart sStop size = resolveIntSliceGo sStart sStop size := rfl
+
+-- `(*List).Insert`'s index arithmetic and choice of slice operation as translated from the
+-- source on this run = the copy in Model.lean (`insert_eq_act` in SliceProps: = `Impl.insert`)
+theorem insertAct_tie (index n : Int) :
+    Risor.Generated.C16.insertAct index n = insertAct index n := rfl
 
 end Risor.C16
